@@ -69,10 +69,13 @@ def sites(base, version, tkey):
     # extensions slot absent on the base but defined for the type: inject a whole extensions dict
     c = sp.classes[tkey]
     if "extensions" in c["properties"] and "extensions" not in base:
-        out.append(("extensions", ("extensions",), "unregistered-extension", lambda j: dict(j, extensions={"x-unreg-ext": {"a": 1}})))
+        # (each merges into whatever an earlier injection of a pair already put there)
+        def ext(j, k, v, **more):
+            return dict(j, extensions=dict(j.get("extensions") or {}, **{k: v}), **more)
+        out.append(("extensions", ("extensions",), "unregistered-extension", lambda j: ext(j, "x-unreg-ext", {"a": 1})))
         if version == "2.1":
-            out.append(("extensions", ("extensions",), "extdef-property-extension", lambda j: dict(j, extensions={"extension-definition--" + V4 + "3": {"extension_type": "property-extension", "rank": 1}})))
-            out.append(("extensions", ("extensions",), "extdef-toplevel-extension", lambda j: dict(j, ext_rank=1, extensions={"extension-definition--" + V4 + "4": {"extension_type": "toplevel-property-extension"}})))
+            out.append(("extensions", ("extensions",), "extdef-property-extension", lambda j: ext(j, "extension-definition--" + V4 + "3", {"extension_type": "property-extension", "rank": 1})))
+            out.append(("extensions", ("extensions",), "extdef-toplevel-extension", lambda j: ext(j, "extension-definition--" + V4 + "4", {"extension_type": "toplevel-property-extension"}, ext_rank=1)))
     if c["properties"].get("objects", {}).get("kind") == "list" and isinstance(base.get("objects"), list):
         out.append(("bundle", ("objects",), "unregistered-member-type", lambda j: dict(j, objects=j["objects"] + [dict({"type": "x-unreg", "id": "x-unreg--" + V4 + "5", "created": "2016-05-12T08:17:27.000Z",
                                                                                                                           "modified": "2016-05-12T08:17:27.000Z", "foo": 1}, **({"spec_version": "2.1"} if version == "2.1" else {}))])))
@@ -308,6 +311,10 @@ def run_case(case, part):
             except (KeyError, IndexError, TypeError):
                 continue
             inj = i1 if i1 in MUST_REFUSE else i2_
+            if "extdef-toplevel-extension" in (i1, i2_) and {i1, i2_} & {"x-property", "unknown-property", "custom_properties-in-json"} and () in (p1, p2):
+                # an unregistered toplevel-property-extension on the same object: the library must assume every extra top-level property belongs to it
+                # (base.py, "Must assume all extras are extension properties, not custom"), so the pair is judged by the equivalence clause only
+                inj = None
             judge(part, j, version, inj, dict(case, site=[list(p1), list(p2)], injection=[i1, i2_]), "pair:%s+%s" % (i1, i2_), 2, stores=False)
 
 
